@@ -97,7 +97,7 @@ func (v *visitor) VisitImplicitCondition(ctx *gen.ImplicitConditionContext) any 
 	} else if asURN != urns.NilURN {
 		scheme, path, _, _ := asURN.ToParts()
 
-		return NewCondition(PropertyTypeURN, scheme, OpEqual, path)
+		return NewCondition(PropertyTypeURN, strings.ToLower(scheme), OpEqual, path)
 
 	} else if implicitIsPhoneNumberRegex.MatchString(value) {
 		value = cleanPhoneNumberRegex.ReplaceAllLiteralString(value, "")
